@@ -130,7 +130,7 @@ def run(ctx, driver):
     ctx.rule = ("the real ode_analyzer.py in a subprocess (temporary working directory) on generated files: valid systems, missing file, invalid JSON, malformed system; "
                 "all combinations of --disable-analytic-solver / --disable-stiffness-check / --preserve-expressions (absent, bare, names, unknown name) / --log-level; "
                 "file in the cwd or in sub-directories (with dots), stems with several dots, with and without extension; distinct = distinct (file, argv); "
-                "non-trivial = run that reaches the analysis")
+                "non-trivial = run that reaches the analysis; a third of the well-formed files give option values with their natural JSON types (numbers)")
     rng = ctx.rng("cli")
     cases = [gen_case(rng, i) for i in range(ctx.n(42, 600))]
     results = pool.run_cases("harness.props.c16", "case_cli", cases, timeout=240, procs=12, init="_init_worker", deadline=ctx.deadline())
